@@ -54,8 +54,20 @@ class HS(dict):
 class MM(dict):
     """sample meta-model: subscript / `in` by rule name, iteration over the classes (as TextXMetaModel does)"""
     def __iter__(s): return iter(list(dict.values(s)))
+_TYPES = {}
+def type_of(kind):
+    """the class object of a sample expression kind: what type(sample) gives and what the class name means as a value (also a constructor)"""
+    if kind not in _TYPES:
+        def ctor(*a, nodes=None, rule_name="", root=False, _k=kind, **kw):
+            if a and isinstance(a[0], str) and nodes is None: kw.setdefault("to_match", a[0]); a = a[1:]
+            return E(_k, *(list(nodes) if nodes is not None else list(a)), rule_name=rule_name, root=root, **kw)
+        _TYPES[kind] = pyeval.PyFn(ctor)
+    return _TYPES[kind]
+def type_env():
+    """class names of terminal matches as values (the composite ones come from ctor_env)"""
+    return {k: type_of(k) for k in ("StrMatch", "RegExMatch", "Match", "EndOfFile")}
 def E(kind, *nodes, rule_name="", root=False, **kw):
-    e = HS({".kind": kind, ".nodes": list(nodes), ".rule_name": rule_name, ".root": root, ".suppress": False})
+    e = HS({".kind": kind, ".nodes": list(nodes), ".rule_name": rule_name, ".root": root, ".suppress": False, ".__class__": type_of(kind)})
     for k_, v_ in kw.items(): e["." + k_] = v_
     return e
 def asgn(op, attr, rhs=None):
